@@ -20,7 +20,10 @@ use core::mem::MaybeUninit;
 
 pub use std::collections::HashSet;
 
-pub const VMAP_CAP: usize = 4;
+pub const VMAP_CAP: usize = match option_env!("VERIF_N") {
+    Some(s) => (s.as_bytes()[0] - b'0') as usize + 1,
+    None => 4,
+};
 
 pub struct HashMap<K, V, S = std::collections::hash_map::RandomState> {
     pub(crate) slots: [MaybeUninit<(K, V)>; VMAP_CAP],
@@ -30,12 +33,8 @@ pub struct HashMap<K, V, S = std::collections::hash_map::RandomState> {
 }
 
 fn uninit_slots<K, V>() -> [MaybeUninit<(K, V)>; VMAP_CAP] {
-    [
-        MaybeUninit::uninit(),
-        MaybeUninit::uninit(),
-        MaybeUninit::uninit(),
-        MaybeUninit::uninit(),
-    ]
+    // an array of MaybeUninit needs no initialisation
+    unsafe { MaybeUninit::<[MaybeUninit<(K, V)>; VMAP_CAP]>::uninit().assume_init() }
 }
 
 impl<K, V, S> HashMap<K, V, S> {
